@@ -87,6 +87,24 @@ def generate(g, tier):
         if not is_int and a1.strip() and a2.strip(): forms += [f'{cmd}\n    {a1}\n    {a2}', f'{cmd} {a1}\n    {a2}']
         for t in forms:
             cases.append(dict(op='compile', src=dict(text=t), meta=dict(family='pair')))
+    # the same source line executed again with another value is validated again: through a function parameter, a loop counter,
+    # a reassigned variable (a legal value first, an illegal one later)
+    SEQ = {'str1': [('"a"', '"ab"'), ('"x"', '""+"xyz"'), ('"F4"', '"F44"'), ('"esc"', '"escape!"')],
+           'int': [('5', '0-5'), ('0', '1.5'), ('3', 'TRUE'), ('7', '"7"')], 'code': [('"65"', '"12345"'), ('"9"', '"9a"'), ('"0001"', '"00001"')]}
+    for _ in range(count(tier, 120, 1200)):
+        cmd = r.choice(VALIDATED)
+        kind = 'int' if cmd in DELAYS else 'code' if cmd == 'ALTCHAR' else 'str1'
+        if cmd in NOARG: continue
+        good, bad = r.choice(SEQ[kind])
+        forms = [f'FUNC press k\n    ${cmd} k\nRUN press {good}\nRUN press {bad}',
+                 f'FUNC press k\n    ${cmd}\n        k\nRUN press {good}\nRUN press {good}\nRUN press {bad}',
+                 f'VAR v {good}\nREPEAT 2\n    ${cmd} v\n    VAR v {bad}',
+                 f'VAR v {good}\nWHILE w,w<2\n    ${cmd} v\n    VAR v {bad}']
+        if kind == 'int': forms.append(f'REPEAT i,3\n    ${cmd} 1-i')
+        if kind == 'code': forms.append(f'REPEAT i,3\n    ${cmd} 9998+i')
+        if kind == 'str1' and MODS.get(cmd, {}).get('single_char', True): forms.append(f'REPEAT i,12\n    ${cmd} i')
+        for t in forms:
+            cases.append(dict(op='compile', src=dict(text=t), meta=dict(family='revalidate')))
     # one, two or three leading `$`: only the single `$` form is the evaluated command; the others are unknown words
     for _ in range(count(tier, 60, 600)):
         cmd = r.choice(VALIDATED + ['STRING', 'STRINGLN', 'REM', 'ALTSTRING'])
